@@ -2,10 +2,14 @@ use crate::engine::run::Ctx;
 
 pub mod bytes;
 pub mod common;
+pub mod fci15;
+pub mod compound;
+pub mod views;
 pub mod framing;
 pub mod gens;
 pub mod roundtrip;
 pub mod rules;
+pub mod sdes10;
 pub mod targets;
 pub mod writers;
 
@@ -18,8 +22,14 @@ pub fn run(ctx: &mut Ctx) -> bool {
         "C06" => writers::c06(ctx),
         "C07" => writers::c07(ctx),
         "C08" => framing::c08(ctx),
+        "C09" => views::c09(ctx),
+        "C10" => sdes10::c10(ctx),
+        "C11" => compound::c11(ctx),
         "C12" => framing::c12(ctx),
+        "C13" => views::c13(ctx),
+        "C14" => compound::c14(ctx),
         "C18" => framing::c18(ctx),
+        "C15" => fci15::c15(ctx),
         "C16" => writers::c16(ctx),
         "C17" => writers::c17(ctx),
         _ => return false,
